@@ -274,3 +274,93 @@ QUERIES = [
     {"name": "Q2b", "fn": q2b, "shards": [{}], "timeout": 300,
      "bound": "3 tracked targets, symbolic dependency subset (8) for a first submission, optional resubmission of a tracked target, symbolic dependency subset (8) for a second submission"},
 ]
+
+
+# ---------------------------------------------------------------- Q2c  three invocations through the real TrackingBackend and the Slurm simulator
+from vf.world import abst
+from vf.world.proj import Project
+
+ST1 = ["pending", "running", "failed", "cancelled", "done"]
+
+
+def _q2c(sa1, sb1, sa2, sb2):
+    """run; every accepted job moves to a symbolic state; run; new jobs move to pending/running; run.
+    At every invocation the submissions (names and prerequisite ids) must be the plan for the state of
+    each target's LATEST accepted job."""
+    sh = q.SHARD
+    if not (q.in_range(sa1, 5) and q.in_range(sb1, 5) and q.in_range(sa2, 2) and q.in_range(sb2, 2)):
+        return q.SKIP
+    if "sa1" in sh and sa1 != sh["sa1"]:
+        return q.SKIP
+    s1 = {"A": q.pick(ST1, sa1), "B": q.pick(ST1, sb1)}
+    s2 = {"A": q.pick(["pending", "running"], sa2), "B": q.pick(["pending", "running"], sb2)}
+    be = sh.get("be", "slurm")
+    with q.notrace():
+        pr = Project("chain2", be)
+        pr.add_sources(5)
+        w = pr.w
+        w.install()
+    try:
+        latest, state = {}, {}
+        clock = [10]
+
+        def one_run(label):
+            bstate = [abst.EXPECT[be][state.get(nm, "none")] for nm in pr.names]
+            stale = [pr.stale_by_files(i) for i in range(pr.n)]
+            cone, st, pre, sub = P.plan(pr.n, pr.deps, stale, bstate, P.endpoints(pr.n, pr.deps))
+            n0 = len(abst.jobs_by_cmd(w))
+            w.run()
+            new = abst.jobs_by_cmd(w)[n0:]
+            if sorted(j["name"] for j in new) != sorted(pr.names[i] for i in sub):
+                return "%s: submitted %s, expected %s (latest jobs %s in states %s)" % (label, [j["name"] for j in new], [pr.names[i] for i in sub], latest, state), new
+            for j in new:
+                i = pr.idx(j["name"])
+                req = sorted(str(latest[pr.names[d]]) for d in pre[i])
+                if sorted(map(str, j["deps"])) != req:
+                    return "%s: %s submitted with prerequisites %s, expected %s" % (label, j["name"], j["deps"], req), new
+                latest[j["name"]] = j["id"]
+                state[j["name"]] = "pending"
+            return "", new
+
+        msg, new = one_run("first run")
+        if msg:
+            return msg
+        for j in new:
+            st_ = s1[j["name"]]
+            if j["name"] == "B" and st_ in ("running", "done", "failed") and s1["A"] != "done":
+                return q.SKIP        # B cannot have started before A succeeded
+            state[j["name"]] = st_
+            abst.set_state(w, j["id"], st_)
+            if st_ == "done":
+                clock[0] += 10
+                w.file(pr.outputs[pr.idx(j["name"])][0], clock[0], "made")
+        msg, new = one_run("second run")
+        if msg:
+            return msg
+        for j in new:
+            state[j["name"]] = s2[j["name"]]
+            if j["name"] == "B" and s2["B"] == "running" and state.get("A") != "done":
+                state["B"] = "pending"
+            abst.set_state(w, j["id"], state[j["name"]])
+        msg, new = one_run("third run")
+        if msg:
+            return msg
+        return ""
+    finally:
+        w.uninstall()
+
+
+def q2c(sa1: int, sb1: int, sa2: int, sb2: int) -> str:
+    """
+    post: _ == ""
+    """
+    return q.run(_q2c, (sa1, sb1, sa2, sb2))
+
+
+QUERIES.append(
+    {"name": "Q2c", "fn": q2c,
+     "shards": {"quick": [{"sa1": k} for k in range(5)], "thorough": [{"sa1": k, "be": b} for k in range(5) for b in ("slurm", "sge", "lsf", "local")]},
+     "timeout": {"quick": 900, "thorough": 1800},
+     "bound": "three `gwf run` invocations on a chain of 2 through the real TrackingBackend (state file on the VFS) and the simulator: after the first run each accepted job is pending / running / failed / cancelled / done (symbolic), "
+              "after the second each new job pending or running; submissions and prerequisite ids must follow the plan for each target's latest accepted job"})
+META["real"] = META["real"] + ["gwf.plugins.run.run (body)", "gwf.backends.base.TrackingBackend.__init__/close (persistence across invocations)", "gwf.backends.slurm.*"]
